@@ -46,7 +46,8 @@ def uncond_problems(eff, allowed_cases=()):
     for c in eff.ctrl:
         kind = c[0]
         if kind == "loop":
-            if tuple(c[2]) == ("1",):
+            # ("1",) = inside the loop body; ("0",) = after a loop that may exit early with an error: both are fine
+            if tuple(c[2]) in (("1",), ("0",)):
                 continue
             bad.append(c)
             continue
